@@ -578,3 +578,12 @@ pub fn rundigests(ctx: &Ctx, prop: &str, n: u64) -> i32 {
     }
     0
 }
+
+/// developer aid: print the configuration of the first n scenarios of a C07 stream
+pub fn show_c07(stream: u64, n: u64, max_k: u32, seed: u64) {
+    for run in 0..n {
+        let t = std::time::Instant::now();
+        let out = simulate(run_seed(seed, stream, run), Profile::C07, oracles_for(Profile::C07), true, max_k);
+        println!("{run}: {:?} ks={:?} nrx={} events={} reps={:?} {:.2}s", out.scenario.setup.oti, &block_sizes(&out.scenario.setup.oti)[..1], out.scenario.setup.receivers.len(), out.scenario.events.len(), out.scenario.setup.replicas, t.elapsed().as_secs_f64());
+    }
+}
